@@ -15,6 +15,8 @@ import (
 	"testing/synctest"
 	"time"
 
+	"encoding/base64"
+
 	"crawshaw.io/sqlite"
 	"crawshaw.io/sqlite/sqlitex"
 	"filippo.io/sunlight/internal/ctlog"
@@ -225,6 +227,14 @@ func (w *World) tamper(st *Store, c core.Cmd) bool {
 	}
 	w.tamperCount++
 	data := bytes.Clone(o.Data)
+	if c.Op == "checkpoint" && (c.S == "truncate" || c.S == "flip" || c.S == "append") {
+		// checkpoint bytes are randomised (grease, line order, hedged ML-DSA): damage
+		// is placed relative to the parsed structure so that a run stays a function
+		// of its seed
+		st.tamperPut(c.Op, tamperCheckpoint(data, w.insts[0].name, c.S, int(c.N)), o)
+		w.sim.Probe("fault.tamper." + c.S)
+		return true
+	}
 	switch c.S {
 	case "delete":
 		delete(st.objs, c.Op)
@@ -588,5 +598,61 @@ func (o *Obj) data() []byte { return o.Data }
 func removeCache(path string) {
 	for _, suf := range []string{"", "-journal", "-wal", "-shm"} {
 		os.Remove(path + suf)
+	}
+}
+
+// tamperCheckpoint damages a signed checkpoint at a position defined by its
+// structure: the note text, or the log's own (deterministic) signature line.
+func tamperCheckpoint(data []byte, name, kind string, n int) []byte {
+	i := bytes.LastIndex(data, []byte("\n\n"))
+	if i < 0 {
+		return append(data, 'x')
+	}
+	text := data[:i+1]
+	var logSig []byte
+	var others [][]byte
+	for _, l := range bytes.SplitAfter(data[i+2:], []byte("\n")) {
+		if len(l) == 0 {
+			continue
+		}
+		// the RFC 6962 signature is the line by the log's name whose blob has the fixed prefix of an ECDSA TreeHeadSignature
+		if bytes.HasPrefix(l, []byte("— "+name+" ")) && len(l) < 200 && logSig == nil && !bytes.Contains(l[:min(len(l), 40)], []byte("grease")) {
+			if raw, err := base64.StdEncoding.DecodeString(strings.TrimSpace(string(l[len("— "+name+" "):]))); err == nil && len(raw) > 16 && raw[12] == 4 && raw[13] == 3 {
+				logSig = l
+				continue
+			}
+		}
+		others = append(others, l)
+	}
+	join := func(t, sig []byte, keepOthers bool) []byte {
+		out := append(bytes.Clone(t), '\n')
+		out = append(out, sig...)
+		if keepOthers {
+			for _, o := range others {
+				out = append(out, o...)
+			}
+		}
+		return out
+	}
+	switch kind {
+	case "truncate":
+		return bytes.Clone(text[:n%len(text)])
+	case "append":
+		return append(bytes.Clone(data), []byte("— junk.example AAAAAAAAAAAA\n")...)
+	default: // flip
+		if n%2 == 0 || logSig == nil {
+			t := bytes.Clone(text)
+			t[(n/2)%len(t)] ^= 1 << uint(n/7%8)
+			return join(t, logSig, true)
+		}
+		sg := bytes.Clone(logSig)
+		// inside the base64 blob
+		off := len("— "+name+" ") + (n/2)%(len(sg)-len("— "+name+" ")-1)
+		if sg[off] == 'A' {
+			sg[off] = 'B'
+		} else {
+			sg[off] = 'A'
+		}
+		return join(text, sg, true)
 	}
 }
